@@ -19,12 +19,12 @@ TRUSTED = [
     "hand-written models Asynkit/Model/{Deque,Sched}.lean (+ the container models Heap/PQ/PosPQ), tied to "
     "src/asynkit/{scheduling.py,tools.py,loop/default.py,loop/eventloop.py,loop/extensions.py,"
     "experimental/priority.py} by the differential correspondence of this run (lean/Drivers/Sched.lean)",
-    "modelled, not verified: collections.deque rotate/popleft/pop/append/insert (insert clamps like "
-    "list.insert); asyncio call_soon appends one Handle, Task.__step re-schedules itself with call_soon "
-    "on a bare yield, _run_once pops handles from the left; Future.set_result call_soon's the waiter's wakeup",
-    "priority-loop configuration: the list abstraction of PosPriorityQueue (drain order) is the hypothesis "
-    "structure ListLike, to be discharged by the container theorems of C17 (posInsert_spec, "
-    "append_equal_pri_spec); proved outright for the deque based loops",
+    "modelled, not verified: collections.deque rotate/popleft/pop/append/remove/insert (remove takes the first "
+    "equal element, insert clamps like list.insert); asyncio call_soon appends one Handle, Task.__step "
+    "re-schedules itself with call_soon on a bare yield, _run_once pops handles from the left; "
+    "Future.set_result call_soon's the waiter's wakeup",
+    "CPython heapq meets its documented contract (HeapLib.Lawful hypothesis of listLike_priority_loop)",
+    "the RLock added around PosPriorityQueue operations is not modelled (single-threaded semantics; C18)",
 ]
 ASSUMPTIONS = [
     "a handle is queued at most once at a time (programs never re-insert a handle that is still queued)",
